@@ -10,7 +10,7 @@ PID = "C02"
 def run(tier, seed):
     rng = random.Random(seed)
     mc = datacheck.design_check(tier)
-    nwalk, depth = (5000, 12) if tier == "quick" else (25000, 12)
+    nwalk, depth = (5000, 12) if tier == "quick" else (40000, 12)
     ws = datacheck.walks(nwalk, depth, seed, cfg="cfg/Nonblock_sim.cfg", module="Nonblock_MC.tla")
     execs = []
     fmts = [None, "64BIT_OFFSET", "64BIT_DATA"]
